@@ -35,7 +35,7 @@ pub fn generate(seed: u64, tier: Tier) -> Scenario {
     let strategy = *r.pick(&STRATEGIES);
     let ma = matches!(strategy, Strategy::LFMA | Strategy::RIMA) && r.chance(2, 3);
     let profile = r.weighted(&[70, 8, 8, 14]); // clean, dup-in-offered, offered-overlaps-pre, retry
-    let mut w = World { network: r.below(2) as u8, magic: 764824073, scripts: vec![], datums: vec![], utxos: vec![] };
+    let mut w = World { network: r.below(2) as u8, magic: 764824073, scripts: vec![], datums: vec![], utxos: vec![], decoded_scripts: false };
     // one native mint policy is always available as script 0
     w.scripts.push(ScriptSpec::Native(Ns::Pk(0)));
     let pool = asset_pool(&mut r);
